@@ -147,6 +147,11 @@ def lockstep(ctx, m):
         s = m.w.effects.summary(f)
         if s["writes"] and f.path not in allowed:
             ctx.bad("lockstep", "other-writer|" + f.short(), ctx.loc(f), "%s mutates the side structure outside insert/remove/remove_vol: %s" % (f.short(), sorted(s["writes"])))
+    side_queries(ctx, m)
+
+
+def side_queries(ctx, m):
+    P, L, T = m.s_prio, m.s_levels, m.s_total
     # queries: best price / best id read the FIRST entry of the priority map
     for name, fieldname in (("best_price", P), ("best_order_idx", P), ("best_vol", L), ("best_vol_and_orders", L)):
         f = m.side_inner(name)
